@@ -33,6 +33,8 @@ pub enum Stmt {
     On(Vec<usize>, Vec<Stmt>),
     Signal(i64),
     Memo(Vec<Stmt>),
+    /// a plain memo whose VALUE TYPE is zero-sized (the value lives in a side table); one node, like `Memo`
+    ZMemo(Vec<Stmt>),
     Selector(EqK, Vec<Stmt>),
     Effect(Vec<Stmt>),
     Scope(Vec<Stmt>),
@@ -71,6 +73,7 @@ pub fn show(s: &Stmt) -> String {
         Stmt::On(d, b) => format!("(on ({}){})", d.iter().map(|x| x.to_string()).collect::<Vec<_>>().join(" "), sp(b)),
         Stmt::Signal(v) => format!("(signal {v})"),
         Stmt::Memo(b) => format!("(memo{})", sp(b)),
+        Stmt::ZMemo(b) => format!("(zmemo{})", sp(b)),
         Stmt::Selector(k, b) => format!("(selector {}{})", match k { EqK::Never => "never", EqK::Same => "same", EqK::Parity => "parity" }, sp(b)),
         Stmt::Effect(b) => format!("(effect{})", sp(b)),
         Stmt::Scope(b) => format!("(scope{})", sp(b)),
@@ -152,6 +155,7 @@ fn sx_stmt(s: &Sx) -> Option<Stmt> {
         }
         "signal" => Stmt::Signal(sx_num(r.first()?)?),
         "memo" => Stmt::Memo(sx_body(r)?),
+        "zmemo" => Stmt::ZMemo(sx_body(r)?),
         "selector" => {
             let Sx::A(k) = r.first()? else { return None };
             let k = match k.as_str() { "never" => EqK::Never, "same" => EqK::Same, "parity" => EqK::Parity, _ => return None };
@@ -190,17 +194,22 @@ enum Kind {
     Effect,
     Scope,
 }
+/// a zero-sized value type
+#[derive(Clone, Copy, PartialEq)]
+pub struct Zst;
+
 #[derive(Clone)]
 enum H {
     Sig(Signal<i64>, usize),
     Memo(ReadSignal<i64>, usize),
+    ZMemo(ReadSignal<Zst>, Rc<Cell<i64>>, usize),
     Effect(usize),
     Scope(usize),
 }
 impl H {
     fn seq(&self) -> usize {
         match self {
-            H::Sig(_, s) | H::Memo(_, s) | H::Effect(s) | H::Scope(s) => *s,
+            H::Sig(_, s) | H::Memo(_, s) | H::ZMemo(_, _, s) | H::Effect(s) | H::Scope(s) => *s,
         }
     }
 }
@@ -261,6 +270,8 @@ struct World {
     handles: RefCell<Vec<Option<NodeHandle>>>,
     sigs: RefCell<Vec<Option<ReadSignal<i64>>>>,
     effect_vals: RefCell<Vec<Option<i64>>>,
+    /// the next plain memo is created with a zero-sized value type
+    zst_next: Cell<bool>,
     trace: RefCell<Vec<String>>,
     next_tag: Cell<usize>,
     api_counter: Cell<usize>,
@@ -275,6 +286,7 @@ impl World {
             handles: RefCell::new(vec![Some(use_global_scope())]),
             sigs: RefCell::new(vec![None]),
             effect_vals: RefCell::new(vec![None]),
+            zst_next: Cell::new(false),
             trace: RefCell::new(vec![]),
             next_tag: Cell::new(0),
             api_counter: Cell::new(0),
@@ -491,6 +503,22 @@ fn create_comp(w: &Rc<World>, env: &mut Vec<H>, kind: Kind, eq: EqK, body: &[Stm
             });
             env.push(H::Effect(my));
         }
+        _ if w.zst_next.take() => {
+            // the same plain memo with a zero-sized value type: the value is kept beside the node
+            let cell = Rc::new(Cell::new(0i64));
+            let (c2, w3) = (cell.clone(), w.clone());
+            let mut f = f;
+            let z: ReadSignal<Zst> = create_memo(move || {
+                let v = f();
+                c2.set(v);
+                w3.effect_vals.borrow_mut()[my] = Some(v);
+                Zst
+            });
+            if w.handles.borrow()[my].is_none() {
+                w.handles.borrow_mut()[my] = Some(verif::handle_of(z));
+            }
+            env.push(H::ZMemo(z, cell, my));
+        }
         _ => {
             let m = match eq {
                 EqK::Never => create_memo(f),
@@ -521,6 +549,14 @@ fn api_form(w: &Rc<World>) -> usize {
 
 fn exec_stmt(w: &Rc<World>, env: &mut Vec<H>, run: &mut Run, s: &Stmt) {
     match s {
+        Stmt::Read(h) if matches!(env[*h], H::ZMemo(..)) => {
+            let (z, cell, id) = match &env[*h] { H::ZMemo(z, c, id) => (*z, c.clone(), *id), _ => unreachable!() };
+            expect_dead_handle(w, id);
+            z.track();
+            let v = cell.get();
+            track_shadow(w, id);
+            note_read(w, run, id, v);
+        }
         Stmt::Read(h) => {
             let (sig, id) = value_handle(env, *h);
             expect_dead_handle(w, id);
@@ -598,6 +634,7 @@ fn exec_stmt(w: &Rc<World>, env: &mut Vec<H>, run: &mut Run, s: &Stmt) {
             env.push(H::Sig(sg, my));
         }
         Stmt::Memo(b) => create_comp(w, env, Kind::Memo, EqK::Never, b),
+        Stmt::ZMemo(b) => { w.zst_next.set(true); create_comp(w, env, Kind::Memo, EqK::Never, b) }
         Stmt::Selector(k, b) => create_comp(w, env, Kind::Memo, *k, b),
         Stmt::Effect(b) => create_comp(w, env, Kind::Effect, EqK::Never, b),
         Stmt::Scope(b) => {
@@ -896,7 +933,7 @@ fn observe(w: &World) -> (String, Vec<Option<(usize, usize, usize, bool)>>) {
                 let v = match sig {
                     Some(s) => catch(|| s.get_untracked()).ok(),
                     None => match w.sh.borrow().kind[i] {
-                        Some(Kind::Effect) => w.effect_vals.borrow()[i],
+                        Some(Kind::Effect) | Some(Kind::Memo) => w.effect_vals.borrow()[i],
                         _ => Some(0),
                     },
                 };
@@ -1604,7 +1641,7 @@ impl<'a> Gen<'a> {
 
 /// does the top-level statement add a handle to the top-level environment?
 fn creates_handle(s: &Stmt) -> bool {
-    matches!(s, Stmt::Signal(_) | Stmt::Memo(_) | Stmt::Selector(..) | Stmt::Effect(_) | Stmt::Scope(_))
+    matches!(s, Stmt::Signal(_) | Stmt::Memo(_) | Stmt::ZMemo(_) | Stmt::Selector(..) | Stmt::Effect(_) | Stmt::Scope(_))
 }
 /// the same statement in an environment that has `d` more handles in front (every lexical environment of a
 /// program starts with the top-level handles created before it)
@@ -1619,6 +1656,7 @@ fn shift(s: &Stmt, d: usize) -> Stmt {
         Stmt::Component(x) => Stmt::Component(b(x)),
         Stmt::On(ds, x) => Stmt::On(ds.iter().map(|h| h + d).collect(), b(x)),
         Stmt::Memo(x) => Stmt::Memo(b(x)),
+        Stmt::ZMemo(x) => Stmt::ZMemo(b(x)),
         Stmt::Selector(k, x) => Stmt::Selector(*k, b(x)),
         Stmt::Effect(x) => Stmt::Effect(b(x)),
         Stmt::Scope(x) => Stmt::Scope(b(x)),
@@ -1930,7 +1968,7 @@ fn templates() -> Vec<Vec<Stmt>> {
 /// a propagation, for every handle nameable there
 fn with_disposals(base: &[Stmt]) -> Vec<Vec<Stmt>> {
     fn env_growth(s: &Stmt) -> usize {
-        matches!(s, Stmt::Signal(_) | Stmt::Memo(_) | Stmt::Selector(..) | Stmt::Effect(_) | Stmt::Scope(_)) as usize
+        matches!(s, Stmt::Signal(_) | Stmt::Memo(_) | Stmt::ZMemo(_) | Stmt::Selector(..) | Stmt::Effect(_) | Stmt::Scope(_)) as usize
     }
     fn variants(body: &[Stmt], env_len: usize, top: bool) -> Vec<Vec<Stmt>> {
         let mut out = vec![];
